@@ -1946,14 +1946,23 @@ def symbolic_mode(query: Optional[SymbolicExpression] = None, mode: EQLMode = EQ
     :param query: Optional symbolic expression to also enter/exit as a context.
     """
     prev_mode = _symbolic_mode.get()
+    stack = SymbolicExpression._symbolic_expression_stack_
+    hidden_stack = None
     try:
         if query is not None:
             query.__enter__(in_rule_mode=True)
+        elif mode is None and stack:
+            # Switching symbolic mode off (while results are computed) also hides the expressions of the enclosing blocks,
+            # queries that user code builds meanwhile do not belong to them.
+            hidden_stack = list(stack)
+            stack.clear()
         _set_symbolic_mode(mode)
         yield SymbolicExpression._current_parent_()
     finally:
         if query is not None:
             query.__exit__()
+        elif hidden_stack is not None:
+            stack[:] = hidden_stack
         _set_symbolic_mode(prev_mode)
 
 
